@@ -105,13 +105,20 @@ def gen_config(rng):
         else:
             exp = {'suites': rng.sample(suites_all, rng.randint(1, len(suites_all)))}
             execs = []
-            for en in rng.sample(execs_all, rng.randint(1, len(execs_all))):
+            if rng.random() < 0.3:
+                # the same executor may be listed more than once (with different settings or suites)
+                chosen = rng.choices(execs_all, k=rng.randint(2, len(execs_all) + 1))
+            else:
+                chosen = rng.sample(execs_all, rng.randint(1, len(execs_all)))
+            for en in chosen:
                 if rng.random() < 0.5:
                     execs.append(en)
                 else:
                     d = gen_level(rng, nxt())
                     if rng.random() < 0.5:
                         d['suites'] = rng.sample(suites_all, rng.randint(1, len(suites_all)))
+                        if rng.random() < 0.15:
+                            d['suites'].append(rng.choice(suites_all))      # a suite listed twice
                     execs.append({en: d})
             exp['executions'] = execs
             exp.update(gen_level(rng, nxt()))
@@ -448,7 +455,9 @@ def subset_sweep(ck, n_cfg, pool_size):
 
 
 def sessions(ck, n):
-    """whole sessions: the -p plan lists one command per scheduled run; an execution starts each once"""
+    """whole sessions: the -p plan lists one command per scheduled run; an execution starts each exactly
+    once under every scheduler (batch, round-robin, random, and the parallel one for non-exclusive runs
+    on 2..64 cores)"""
     rng = ck.rng
     for i in range(n):
         cfg = gen_config(rng)
@@ -458,39 +467,69 @@ def sessions(ck, n):
             ex['path'] = '.'
         sel = gen_selection(rng, cfg)
         sel['cli'] = ['-in', '1']
+        sched = rng.choice(['batch', 'round-robin', 'random', 'parallel', 'parallel', 'mixed'])
+        cpus = 1
+        if sched in ('parallel', 'mixed'):
+            cpus = rng.choice([2, 4, 5, 8, 9, 16, 64])
+            levels = [cfg.setdefault('runs', {})] + list(cfg['experiments'].values()) + \
+                list(cfg['executors'].values()) + list(cfg['benchmark_suites'].values()) + \
+                list(cfg.get('machines', {}).values())
+            for su in cfg['benchmark_suites'].values():
+                levels += [list(b.values())[0] for b in su['benchmarks'] if isinstance(b, dict)]
+            for exp in cfg['experiments'].values():
+                levels += [list(x.values())[0] for x in exp['executions'] if isinstance(x, dict)]
+            for lv in levels:
+                lv.pop('execute_exclusively', None)
+            cfg['runs']['execute_exclusively'] = False
+            if sched == 'mixed':
+                rng.choice(list(cfg['benchmark_suites'].values()))['execute_exclusively'] = True
         codes = s02.Codes()
         want = oracle_runs(cfg, sel, codes)
         wd = os.path.join(ck.scratch, 'c01s%d' % i)
         os.makedirs(wd)
         conf = drive.write_config(wd, cfg)
-        argv = ['-in', '1'] + (['-m', sel['machine']] if sel['machine'] else []) + [conf] + \
+        argv = ['-in', '1'] + (['-m', sel['machine']] if sel['machine'] else []) + \
+            (['-s', sched] if sched in ('batch', 'round-robin', 'random') else []) + [conf] + \
             ([sel['exp']] if sel['exp'] else []) + sel['filters']
-        r1 = drive.run_session(wd, ['-p'] + argv, lambda rec: drive.Outcome(0, ''))
+        r1 = drive.run_session(wd, ['-p'] + argv, lambda rec: drive.Outcome(0, ''), cpu_count=cpus)
         plan = [l for l in r1.stdout.split('\n') if 'harness_' in l]
-        r2 = drive.run_session(wd, argv, lambda rec: drive.Outcome(0, 'B: iterations=1 runtime: 1000us\n'))
+        r2 = drive.run_session(wd, argv, lambda rec: drive.Outcome(0, 'B: iterations=1 runtime: 1000us\n'),
+                               cpu_count=cpus)
         ck.impl_traces += 2
-        inp = {'config': cfg, 'selection': sel, 'session': True}
-        ck.case(nontrivial_key='sess' + canon([cfg, sel]), sample=None)
+        inp = {'config': cfg, 'selection': sel, 'session': True, 'scheduler': sched, 'cpu_count': cpus}
+        ck.case(nontrivial_key='sess' + canon([cfg, sel, sched, cpus]), sample=None)
         ck.count('kind:session')
+        ck.count('session:%s' % sched)
         if r1.crash or r2.crash:
             ck.disagree('c01.session: session crashed', inp, {'plan': r1.crash, 'exec': r2.crash}, None)
+            ck.oracle_fail('session_completes', inp, {'plan': r1.crash, 'exec': r2.crash}, {'kind': 'crash'})
             continue
         if r1.starts:
             ck.oracle_fail('plan_starts_nothing', inp, {'starts': len(r1.starts)})
         if len(plan) != len(want):
             ck.oracle_fail('plan_lists_scheduled_runs', inp, {'plan_lines': len(plan), 'scheduled': len(want)},
                            {'kind': 'plan'})
-        if len(r2.starts) != len(want):
-            ck.oracle_fail('each_scheduled_run_started_once', inp, {'starts': len(r2.starts), 'scheduled': len(want)},
+        started = [str(r['args']) for r in r2.starts if 'harness_' in str(r['args'])]
+        if len(started) != len(want):
+            ck.oracle_fail('each_scheduled_run_started_once', inp, {'starts': len(started), 'scheduled': len(want)},
                            {'kind': 'exec'})
+        # the plan and the execution are the same multiset of command lines
+        def tail(cmd):
+            return cmd[cmd.index('harness_'):].strip()
+        a, b = sorted(tail(l) for l in plan), sorted(tail(c) for c in started)
+        if a != b:
+            ck.oracle_fail('executed_commands_are_the_planned_ones', inp,
+                           {'only_plan': [x for x in a if x not in b][:3], 'only_exec': [x for x in b if x not in a][:3]},
+                           {'kind': 'plan-vs-exec'})
 
 
 def run(ck):
     quick = ck.tier == 'quick'
     ck.rule = ('schema-valid configurations from the documented grammar (1-3 experiments incl. deliberate copies, '
-               'executions as names or maps with own suites/settings, 1-3 suites, benchmarks as names or maps, variable '
+               'executions as names or maps with own suites/settings incl. the same executor listed several times, 1-3 suites, benchmarks as names or maps, variable '
                'lists at every level incl. digit strings and empty strings, 0-2 machines) x experiment selection x '
-               'filter sets (random subsets and all subsets of a 5-filter pool) x CLI overrides; non-trivial = at least '
+               'filter sets (random subsets and all subsets of a 5-filter pool) x CLI overrides; whole sessions (-p plan and '
+               'execution) under the batch, round-robin, random and parallel schedulers (2-64 cores); non-trivial = at least '
                'two scheduled runs or at least one filter; distinct by (configuration, selection)')
     ck.assumptions = ['variable values are YAML ints and strings (floats, booleans, dates rely on Python cross-type '
                       'equality and are outside the generator); malformed filters belong to C10; plain values of '
@@ -505,7 +544,7 @@ def run(ck):
             cases = []
     check_cases(ck, cases)
     subset_sweep(ck, 6 if quick else 40, 5 if quick else 8)
-    sessions(ck, 15 if quick else 200)
+    sessions(ck, 40 if quick else 400)
 
 
 def replay(ck, data):
